@@ -4,14 +4,100 @@ registered, one inside a section behind a freed slot): exactly-once callbacks in
 import re
 from vlib import *
 from props import C15seq
+import gp_common as G
+import callrcu_common as CR
 FILES = ['src/urcu-call-rcu-impl.h', 'src/urcu-bp.c', 'src/urcu.c', 'src/rculfhash.c', 'src/workqueue.c']
 SRCS = [REPO + s for s in ('/src/wfcqueue.c', '/src/wfstack.c', '/src/compat_futex.c', '/src/compat_arch.c')]
-TRUSTED = ['Coq 8.16.1 kernel; no axioms', 'extraction: ExtrOcamlBasic only; ocaml/bparena_driver.ml', 'harness: seqdiff/bparena.c (prune operation), seqdiff/fork_callrcu.c, seqdiff/fork_bp.c (real fork(), real threads)',
+TRUSTED = ['Coq 8.16.1 kernel; no axioms', 'extraction: ExtrOcamlBasic only; ocaml/bparena_driver.ml, ocaml/fork_driver.ml', 'projection of scen_callrcu traces onto Fork.choice: tools/props/C16.py project_fork (trusted)', 'harness: seqdiff/bparena.c (prune operation), seqdiff/fork_callrcu.c, seqdiff/fork_bp.c (real fork(), real threads)',
            'modelled: helpers as phases idle / spliced / invoking / paused with queue, private batch and registration flag; the kernel\'s fork semantics (copy of memory, only the calling thread survives) and glibc\'s atfork/malloc '
            'interplay are not modelled; the hash table across fork: creation / use / worker-side destruction of an auto-resizing table in parent and child (seqdiff/fork_lfht.c); a resize in flight at the fork is not exercised']
+FPROGS = ['C0C1FC2', 'C0HC1C2FC3', 'c0C2FC4/(r)', 'HC0C1FC2FC3', 'C0FC1/(r)(q)', 'Hc0C2C3FC5F']
+def project_fork(raw):
+    """projection of a scen_callrcu trace with F operations onto Fork.choice (see ocaml/fork_driver.ml)"""
+    ev = G.events(raw)
+    m = re.search(r'^- layout crd flags (\d+)', raw, flags=re.M)
+    if not m: return None
+    FL = '+' + m.group(1); PAUSE, PAUSED = 16, 32
+    ncrd = len(set(re.findall(r'\bcrd(\d+)\+', raw)))
+    out = ['T %d' % ncrd]
+    libthreads = set(p[0] for p in ev if p[1] == 'start'); helper_of = {}; phase = {}; began = ended = False
+    for p in ev:
+        t, k = p[0], p[1]; loc = p[2] if len(p) > 2 else ''
+        mm = re.match(r'crd(\d+)\+(\d+)$', loc)
+        if mm and t in libthreads and t not in helper_of: helper_of[t] = int(mm.group(1))
+        if k == 'xchg' and mm and mm.group(2) == '0':
+            K = int(mm.group(1)); v = p[3][2:]
+            if v == '&crd%d+8' % K:
+                if t in libthreads and helper_of.get(t) == K:
+                    if phase.get(K) == 'syncing': out.append('E %d' % K)
+                    out.append('P %d' % K); phase[K] = 'spliced'
+                else: return ['T 0', 'X unsupported: queue moved by call_rcu_data_free', '.']
+            else:
+                i = CR.oid(v)
+                if i is not None: out.append('C %d %d' % (K, i))
+        elif k == 'xchg' and loc == 'waiters+0' and t in helper_of and phase.get(helper_of[t]) == 'spliced': phase[helper_of[t]] = 'syncing'
+        elif k == 'call' and p[2] == 'cb' and t in helper_of:
+            K = helper_of[t]
+            if phase.get(K) == 'syncing': out.append('E %d' % K); phase[K] = 'invoking'
+            out.append('I %d %s' % (K, p[3]))
+        elif k == 'or' and mm and loc.endswith(FL):
+            v = int(p[3][2:]); K = int(mm.group(1))
+            if v == PAUSED: out.append('Z %d' % K)
+            elif v == PAUSE and not began: out.append('B'); began = True; ended = False
+        elif k == 'and' and mm and loc.endswith(FL):
+            v = int(p[3][2:]) & 0xffffffff; K = int(mm.group(1))
+            if v == (~PAUSED) & 0xffffffff: out.append('R %d' % K)
+            elif v == (~PAUSE) & 0xffffffff and not ended: out.append('N'); ended = True; began = False
+        elif k == 'note' and len(p) > 2 and p[2] == 'forkq':
+            out.append(('KQ', int(p[3]), p[7] if len(p) > 7 else ''))
+        elif k == 'note' and len(p) > 2 and p[2] == 'forkpoint':
+            qs = {}
+            while out and isinstance(out[-1], tuple): _, kk, ids = out.pop(); qs[kk] = ids.rstrip(',')
+            out.append('K ' + '|'.join(qs.get(i, '') for i in range(ncrd)))
+    out.append('.')
+    return out
+
+def fork_refinement(ctx):
+    """the PAUSE / PAUSED handshake of the real urcu-call-rcu-impl.h (call_rcu_before_fork / after_fork_parent around a would-be fork, helpers scheduled like any
+    thread) must be a run of the extracted Fork model, and the callbacks found in the helpers' queues at the fork must be the model's"""
+    impl = CR.build(ctx); driver = build_model_driver(ctx, 'fork', 'ExtractFork.v', 'fork_driver.ml')
+    if not impl or not driver: return
+    cases = []
+    for prog in FPROGS[:4 if ctx.quick() else len(FPROGS)]:
+        th = [str(i) for i in range(prog.count('/') + 1)]; allt = th + [str(len(th) + i) for i in range(2)]      # helper threads get the next ids
+        for k in range(0, 60 if ctx.quick() else 160, 3 if ctx.quick() else 1):
+            cases.append((prog, '0a' * k + ''.join(x + chr(ord('a') + int(x)) for x in allt[1:]) * 25 + '0a' * 40))
+    n = len(cases) + (150 if ctx.quick() else 3000)
+    while len(cases) < n:
+        prog = ctx.rng.choice(FPROGS); th = [str(i) for i in range(prog.count('/') + 1 + 2)]
+        cases.append((prog, bursty(ctx.rng, th, lo=60, hi=500, flush=ctx.rng.choice([0.0, 0.1, 0.3]), means=(1, 3, 10, 30))))
+    tail = ''.join(chr(ord('a') + i) + str(i) for i in range(6)) * 500
+    rs = run_many([[impl, p, s + tail] for p, s in cases], timeout=30)
+    blocks = []; nor = 0; nforks = 0
+    for (p, s), (rc, raw) in zip(cases, rs):
+        o = CR.oracle(p, s, None, raw)
+        if 'ABORT' in raw or 'BUG ' in raw or 'TIMEOUT' in raw: o = 'abnormal run: ' + raw[-300:]
+        if o:
+            nor += 1
+            if nor <= 2: ctx.fail('oracle', 'call_rcu oracle on the fork-handshake scenario', o, concrete={'scenario': 'scen_callrcu', 'prog': p, 'schedule': s + tail, 'verdict': o})
+        b = project_fork(raw)
+        if b is None: ctx.fail('harness', 'layout line of scen_callrcu', raw[:200]); return
+        blocks.append(b); nforks += sum(1 for l in b if l.startswith('K '))
+    rc, out, err = sh([driver], inp='\n'.join('\n'.join(b) for b in blocks) + '\n', timeout=600); res = out.splitlines(); nrej = 0
+    if len(res) != len(cases): ctx.fail('harness', 'fork driver output', 'expected %d verdicts, got %d: %s' % (len(cases), len(res), err[-300:])); return
+    for (p, s), r in zip(cases, res):
+        if r.startswith('ok'): ctx.cov['model_actions_checked'] = ctx.cov.get('model_actions_checked', 0) + int(r.split()[1]); ctx.cov['traces_validated_against_impl'] += 1
+        else:
+            nrej += 1
+            if nrej <= 3: ctx.fail('correspondence', 'ForkRun.fstep accepts the PAUSE handshake of urcu-call-rcu-impl.h', 'prog %s schedule %s...: %s' % (p, s[:60], r),
+                                   concrete={'scenario': 'scen_callrcu', 'prog': p, 'schedule': s + tail, 'verdict': r})
+    ctx.cov['evaluations'] += len(cases); ctx.cov['distinct_nontrivial'] += nforks; ctx.cov['disagreements'] = ctx.cov.get('disagreements', 0) + nrej
+    ctx.cov['input_distribution']['fork_handshake'] = {'cases': len(cases), 'fork_points_checked': nforks, 'programs': FPROGS}
+
 def run(ctx):
     ctx.cov['source_hash'] = source_hash(FILES)
     prove(ctx)
+    fork_refinement(ctx)
     am = build_model_driver(ctx, 'bparena', 'ExtractBpArena.v', 'bparena_driver.ml')
     nseq = 10 if ctx.quick() else 120
     for tag, defs in (('2', ['-DURCU_VERIF_INIT_READER_COUNT=2']), ('default', [])):
